@@ -232,6 +232,68 @@ theorem announce_uses_received_cid (stride ctid atid : Nat) (cr ar : List (Optio
       refine ⟨d, rfl, ?_⟩
       split at h <;> simp at h <;> exact h.symm
 
+/-! ## no truncation: the reply that is parsed is the datagram that was sent -/
+
+/-- the receive buffer holds the largest possible UDP datagram -/
+theorem rx_buffer_holds_any_datagram : 65535 ≤ Consts.rxBufLen := by decide
+
+/-- what `recv` hands over is one of the datagrams the tracker sent, cut to the buffer -/
+theorem recvLoop_mem (bufLen : Nat) : ∀ (n : Nat) (replies : List (Option Bytes)) (d : Bytes),
+    (recvLoop bufLen n replies).2 = some d → ∃ a, some a ∈ replies ∧ d = a.take bufLen := by
+  intro n
+  induction n with
+  | zero => intro replies d h; simp [recvLoop] at h
+  | succ n ih =>
+    intro replies d h
+    unfold recvLoop at h
+    cases replies with
+    | nil =>
+      simp only [List.head?_nil, List.tail_nil] at h
+      obtain ⟨a, ha, _⟩ := ih [] d h
+      simp at ha
+    | cons x t =>
+      cases x with
+      | some a =>
+        simp only [List.head?_cons, Option.some.injEq] at h
+        exact ⟨a, by simp, h.symm⟩
+      | none =>
+        simp only [List.head?_cons, List.tail_cons] at h
+        obtain ⟨a, ha, hd⟩ := ih t d h
+        exact ⟨a, List.mem_cons_of_mem _ ha, hd⟩
+
+/-- **The printed peers are exactly the records of the reply the tracker sent**: when the exchange
+with a tracker yields a peer list, it is the list of all fixed-size records that follow the 20-byte
+header of one of the datagrams sent in answer to the announce — none dropped, whatever its size
+(a UDP datagram carries at most 65535 bytes). -/
+theorem peers_are_records_of_sent_reply (stride : Nat) (ctid atid : Nat) (cr ar : List (Option Bytes)) (l : List Bytes)
+    (hsize : ∀ a, some a ∈ ar → a.length ≤ 65535)
+    (h : (runTracker stride ctid atid cr ar).1.result = .ok l) :
+    ∃ a, some a ∈ ar ∧ parsePeers stride (a.drop Consts.announceRespLen) = .ok l := by
+  unfold runTracker at h
+  cases hx : exchange Consts.connectRespLen Consts.connectRespLen 0 ctid cr with
+  | mk n r =>
+    cases r with
+    | error e => simp [hx] at h
+    | ok d =>
+      simp only [hx] at h
+      cases hy : exchange Consts.rxBufLen Consts.announceRespLen 1 atid ar with
+      | mk m r2 =>
+        cases r2 with
+        | error e => simp [hy] at h
+        | ok a' =>
+          simp only [hy] at h
+          -- the accepted datagram is one that was sent, uncut
+          have hacc := (accept_iff Consts.rxBufLen Consts.announceRespLen 1 atid ar a' (by decide)).mp (by rw [hy])
+          obtain ⟨a, ha, hd⟩ := recvLoop_mem _ _ _ _ hacc.1
+          have hwhole : a.take Consts.rxBufLen = a := by
+            apply List.take_of_length_le
+            have := hsize a ha
+            have := rx_buffer_holds_any_datagram
+            omega
+          rw [hwhole] at hd
+          subst hd
+          exact ⟨a', ha, h⟩
+
 /-! ## the announce command -/
 
 theorem insertSet_mem (x y : Bytes) (s : List Bytes) : y ∈ insertSet x s ↔ y = x ∨ y ∈ s := by
